@@ -1,2 +1,30 @@
 import MeddlyModel
-def main : IO Unit := IO.println "drv"
+import Driver.Funcs
+
+open Meddly
+
+partial def readAll (h : IO.FS.Stream) (acc : Array String) : IO (Array String) := do
+  let line ← h.getLine
+  if line.isEmpty then return acc
+  readAll h (acc.push (line.trimAscii.toString))
+
+/-- families handled by the generic function-level acceptor -/
+def funcFamilies : List String :=
+  ["setops", "arith", "build", "copy", "image", "reach", "canon", "iter", "index", "io",
+   "reorder", "policy", "errors", "pregen", "life"]
+
+def main (args : List String) : IO UInt32 := do
+  let lines ← match args with
+    | [path] => do
+      let s ← IO.FS.readFile path
+      pure ((s.splitOn "\n").map (fun l => l.trimAscii.toString)).toArray
+    | _ => do readAll (← IO.getStdin) #[]
+  let fam := match lines.toList.find? (fun l => l.startsWith "family ") with
+    | some l => (l.drop 7).toString
+    | none => ""
+  let rep : Report :=
+    if funcFamilies.contains fam then Funcs.accept lines
+    else if fam == "terminal" then acceptTerminal lines
+    else ({} : Report).addDiff s!"line=0 kind=unknown-family {fam}"
+  rep.print
+  return (if rep.ok then 0 else 1)
